@@ -156,6 +156,13 @@ func (p *Program) reachFrom(f *ssa.Function, set map[*ssa.Function]bool) {
 	}
 }
 
+// ReachOf returns the functions reachable from f (f included).
+func (p *Program) ReachOf(f *ssa.Function) map[*ssa.Function]bool {
+	set := map[*ssa.Function]bool{}
+	p.reachFrom(f, set)
+	return set
+}
+
 // InModule reports whether fn is declared in the analysed library package
 // (bound/thunk wrappers of its methods included).
 func (p *Program) InModule(fn *ssa.Function) bool {
